@@ -513,12 +513,57 @@ def inline_helper(src: str, target: Item, helper: Item):
     Returns (new_src, number_of_call_sites) or raises ScanError when the helper is outside this subset."""
     m = mask(src)
     hb = m[helper.body[0]:helper.body[1]]
-    if re.search(r'\breturn\b', hb) or '?' in hb:
-        raise ScanError('helper %s can leave early (return / ?): not inlinable' % helper.name)
+    if re.search(r'\breturn\b', hb):
+        raise ScanError('helper %s can leave early (return): not inlinable' % helper.name)
+    try_mode = '?' in hb
     if re.search(r'\b%s\s*\(' % re.escape(helper.name), hb):
         raise ScanError('helper %s is recursive' % helper.name)
     header = src[helper.start:helper.header_end]
     hm = m[helper.start:helper.header_end]
+
+    def ret_type(item):
+        h = src[item.start:item.header_end]
+        k = h.rfind('->')
+        if k < 0:
+            return ''
+        t = re.split(r'\bwhere\b', h[k + 2:])[0]
+        return re.sub(r'\s+', '', t)
+    tail_ok = None
+    if try_mode:
+        # R2 for helpers that use `?`: only when the helper returns the caller's own Result type (so a `?` inside the inlined text
+        # leaves the caller exactly as `helper(..)?` did), every call is written `helper(..)?`, and the helper ends in `Ok(EXPR)`
+        def err_family(t):
+            # `io::Result<T>` / `anyhow::Result<T>` (one-parameter aliases): the alias path; `Result<T, E>`: the text of E
+            mm = re.match(r'^((?:\w+::)+)Result<', t)
+            if mm:
+                return mm.group(1)
+            mm = re.match(r'^Result<(.*)>$', t)
+            if mm:
+                parts = split_args(mm.group(1))
+                if len(parts) == 2:
+                    return 'E=' + parts[1].strip()
+            return None
+        if err_family(ret_type(helper)) is None or err_family(ret_type(helper)) != err_family(ret_type(target)):
+            raise ScanError('helper %s uses `?` and its error type is not textually the caller\'s: not inlinable' % helper.name)
+        b0, b1 = helper.body
+        depth = 0
+        last = b0
+        for k in range(b0, b1):
+            c = m[k]
+            if c in '([{':
+                depth += 1
+            elif c in ')]}':
+                depth -= 1
+            elif c == ';' and depth == 0:
+                last = k + 1
+        tail = src[last:b1].strip()
+        tm = m[last:b1].strip()
+        if not (tm.startswith('Ok') and tm.endswith(')')):
+            raise ScanError('helper %s uses `?` and does not end in Ok(..): not inlinable' % helper.name)
+        o = tm.index('(')
+        if match_close(tm, o) != len(tm) - 1 or tm[2:o].strip():
+            raise ScanError('helper %s uses `?` and does not end in Ok(..): not inlinable' % helper.name)
+        tail_ok = (src[b0:last], tail[tail.index('(') + 1:-1])
     po = hm.index('(')
     pc = match_close(hm, po)
     params = split_args(header[po + 1:pc])
@@ -549,10 +594,21 @@ def inline_helper(src: str, target: Item, helper: Item):
         args = split_args(src[op + 1:cl])
         if len(args) != len(binds):
             raise ScanError('helper %s: call with %d arguments, %d parameters' % (helper.name, len(args), len(binds)))
-        block = '{ ' + ''.join('let %s%s: %s = %s; ' % (mu, nm, ty, a) for (mu, nm, ty), a in zip(binds, args)) + '{' + body + '} }'
+        end = cl + 1
+        if try_mode:
+            q = end
+            while q < hi and m[q].isspace():
+                q += 1
+            if q >= hi or m[q] != '?':
+                raise ScanError('helper %s uses `?` but a call site is not written `%s(..)?`' % (helper.name, helper.name))
+            end = q + 1
+            inner = tail_ok[0] + ' ' + (tail_ok[1] if tail_ok[1].strip() else '()')
+        else:
+            inner = body
+        block = '{ ' + ''.join('let %s%s: %s = %s; ' % (mu, nm, ty, a) for (mu, nm, ty), a in zip(binds, args)) + '{' + inner + '} }'
         out.append(src[pos:mt.start()])
         out.append(block)
-        pos = cl + 1
+        pos = end
         n += 1
     if n == 0:
         raise ScanError('helper %s: no call site found in %s' % (helper.name, target.name))
